@@ -434,7 +434,9 @@ class Facts:
                 cs.add(cq)
         if len(cs) == 1:
             caller = self.fn(next(iter(cs)))
-            if caller is not None and caller.qname.rsplit('::', 1)[0] == base.qname.rsplit('::', 1)[0]:
+            bm = base.qname.rsplit('::', 1)[0]
+            # same module / impl - or a free function of the module next to the impl whose method calls it
+            if caller is not None and (caller.qname.rsplit('::', 1)[0] == bm or (caller.kind == 'AssocFn' and caller.qname.rsplit('::', 2)[0] == bm)):
                 return self.home(caller, depth + 1)
         return base
 
